@@ -77,6 +77,97 @@ def h_dt(f, k, m, pastify=False, defs=None, style='sub', jitter=False, rounds=1,
     return body
 
 
+def h_seq(f, seq, pastify=False, defs=None, style='multi'):
+    """an arbitrary SEQUENCE of API calls on one online object: u = update with fresh symbolic samples, r = reset(), g = get_value() of every
+    name, x = another object of the same formula is created and updated in between, s = set_sampling_period() with the values already in
+    force.  After every step the object must be indistinguishable from a fresh one that was fed the updates since the last reset()."""
+    f = T(f)
+    defs_list = [(n, T(d)) for n, d in (defs or [])]
+    full = inline(f, dict(defs_list))
+    vs = sorted(set(variables(full)).union(*[variables(inline(d, dict(defs_list))) for _, d in defs_list]))
+
+    def mk():
+        if defs_list:
+            return _specs(style, defs_list, f, vs, 'combined', _mk_dt, pastify)[0]
+        return dt.make_spec('combined', 'out = ' + text(f), vs, pastify=pastify, f=f)
+
+    def body(env):
+        A = env.A
+        a = mk()
+        hist = []
+        res = []
+        n = 0
+        for pos, op in enumerate(seq):
+            if op == 'u':
+                smp = {v: env.real('%s_%d' % (v, n)) for v in vs}
+                n += 1
+                hist.append(smp)
+                got = a.update(len(hist) - 1, [(v, smp[v]) for v in vs])
+                b = mk()
+                for i, h in enumerate(hist):
+                    want = b.update(i, [(v, h[v]) for v in vs])
+                res.append(('step%d-update' % pos, A.eq(got, want)))
+                res.append(('step%d-counter' % pos, A.bool(a.sampling_violation_counter == b.sampling_violation_counter)))
+                for nm, _ in defs_list:
+                    res.append(('step%d-get_value-%s' % (pos, nm), A.eq(a.get_value(nm), b.get_value(nm))))
+            elif op == 'r':
+                a.reset()
+                hist = []
+                res.append(('step%d-counter-zero' % pos, A.bool(a.sampling_violation_counter == 0)))
+            elif op == 'x':
+                c = mk()
+                c.update(0, [(v, env.real('other_%s_%d' % (v, pos))) for v in vs])
+                c.reset()
+            elif op == 's':
+                pu = (a.online_interpreter.sampling_period, a.online_interpreter.sampling_period_unit, a.online_interpreter.sampling_tolerance)
+                a.set_sampling_period(*pu)
+        env.observe('steps', len(seq))
+        return res
+    return body
+
+
+def h_seq_ct(f, seq):
+    """dense time: a sequence of calls on one online object (u = update with the next sample of every variable, e = update with nothing new,
+    r = reset(), x = another object used in between); after every update the returned list equals that of a fresh object fed the same
+    batches since the last reset()"""
+    f = T(f)
+    vs = sorted(variables(f))
+
+    def body(env):
+        A = env.A
+        a = ct.make_spec('online~', 'out = ' + text(f), vs)
+        hist = []
+        res = []
+        n = 0
+        for pos, op in enumerate(seq):
+            if op in 'ue':
+                if op == 'u':
+                    t = len([h for h in hist if h])
+                    batch = {v: [[t, env.real('%s_%d' % (v, n))]] for v in vs}
+                    n += 1
+                else:
+                    batch = {v: [] for v in vs}
+                hist.append(batch)
+                got = a.update(*[[v, [list(p) for p in batch[v]]] for v in vs])
+                b = ct.make_spec('online~', 'out = ' + text(f), vs)
+                for h in hist:
+                    want = b.update(*[[v, [list(p) for p in h[v]]] for v in vs])
+                ok = isinstance(got, list) and isinstance(want, list) and len(got) == len(want)
+                res.append(('step%d-length' % pos, A.bool(ok)))
+                if ok:
+                    for i in range(len(got)):
+                        res.append(('step%d-sample%d' % (pos, i), A.And(A.eq(got[i][0], want[i][0]), A.eq(got[i][1], want[i][1]))))
+            elif op == 'r':
+                a.reset()
+                hist = []
+            elif op == 'x':
+                c = ct.make_spec('online~', 'out = ' + text(f), vs)
+                c.update(*[[v, [[0, env.real('other_%s_%d' % (v, pos))]]] for v in vs])
+        env.observe('steps', len(seq))
+        return res
+    return body
+
+
 def h_ct(f, k, m, n, defs=None, rounds=1, txt=None):
     f = T(f)
     defs_list = [(nm, T(d)) for nm, d in (defs or [])]
@@ -161,6 +252,28 @@ def obligations(tier, rng):
         for f in [('leq', ('sub', X, g), C1), ('geq', g, Y), ('historically', ('leq', g, Y)), ('gt', ('add', ('abs', g), Y), C1), ('eq', Y, ('neg', g))]:
             for k in ([2] if quick else [1, 3]):
                 out.append(ob('C10', 'dt', 'dt/below-predicate/%s/k=%d' % (text(f), k), f=f, k=k, m=m))
+    # seeded random sequences of API calls on one object, judged against a fresh object after every step
+    from .c02 import STATEFUL as _ST
+    seqf = [('and', g, ('geq', Z, ('const', 0.0))) for g in _ST[:6]] + [('leq', ('sub', X, ('prev', X)), ('const', 1.0)), ('or', ('once_t', X, 0, 1), ('once_t', X, 1, 2))]
+    seqp = [('eventually_t', X, 0, 2), ('and', ('next', X), Y), ('until_t', X, Y, 0, 1)]
+    for i in range(24 if quick else 200):
+        pst = i % 4 == 3
+        f = rng.choice(seqp) if pst else rng.choice(seqf)
+        L = rng.choice([5, 6, 7])
+        seq = ''.join(rng.choice('uuuurrxsg' if i % 2 else 'uuurx') for _ in range(L)) + 'uu'
+        if 'r' not in seq:
+            seq = seq[:2] + 'r' + seq[3:]
+        dfs = [['p', ('prev', X)]] if i % 5 == 4 and not pst else None
+        out.append(ob('C10', 'seq', 'dt/api-sequence/%d/%s/%s%s%s' % (i, text(f), seq, '/pastified' if pst else '', '/p=prev(x)' if dfs else ''), f=f, seq=seq, pastify=pst, defs=dfs,
+                      max_paths=20000, wall=600))
+    seqc = [('once_t', X, 0, 1), ('historically_t', ('geq', X, ('const', 0.0)), 1, 2), ('since', X, Y), ('and', ('once', X), ('geq', Y, ('const', 0.0))), ('geq', X, ('sub', ('const', 2.0), ('const', 1.0))),
+            ('or', ('not', X), ('once_t', Y, 0, 1)), ('since_t', X, Y, 0, 1), ('once_t', ('once_t', X, 1, 1), 0, 1)]
+    for i in range(12 if quick else 80):
+        f = rng.choice(seqc)
+        seq = ''.join(rng.choice('uuuerx') for _ in range(rng.choice([4, 5]))) + 'uu'
+        if 'r' not in seq:
+            seq = seq[:2] + 'r' + seq[3:]
+        out.append(ob('C10', 'seq_ct', 'ct/api-sequence/%d/%s/%s' % (i, text(f), seq), f=f, seq=seq, max_paths=40000, wall=900))
     # an update that fails part-way before the reset (division by exactly zero above stateful operators), also as the very first update
     for g in [('prev', X), ('once', X), ('once_t', X, 0, 2), ('since', X, Z), ('historically_t', X, 1, 2)]:
         for f in [('div', g, Y), ('geq', ('div', g, Y), ('const', 1.0))]:
